@@ -135,12 +135,31 @@ def judge_socket(data, opts, chunks, bufsize, end):
     """The same invariant over a socket transport: positions are not observable
     there, so every raw item must be found in the input at or after the end of the
     previous one (non-overlapping, in order) and begin with a preamble."""
-    sock = S.ScriptedSocket(data, chunks, end)
+    # the socket may be a subclass with read()/write() of its own, the application may
+    # write to it between reads - and a write may fail while received data is pending
+    mode = (len(data) + bufsize) % 4
+    cls = S.TLSLikeSocket if mode == 3 else S.ScriptedSocket
+    sock = cls(data, chunks, end, write_fails={0: None, 1: BrokenPipeError, 2: ConnectionResetError, 3: None}[mode])
     viol, n = [], 0
     try:
         try:
-            items, exc = S.read_all(sock, dict(opts, bufsize=bufsize), _handler_for(data) if opts.get("quitonerror") == 1 else None,
-                                    limit=4 * len(data) + 50)
+            with S.deadline():
+                rd = S.mk_reader(sock, dict(opts, bufsize=bufsize), _handler_for(data) if opts.get("quitonerror") == 1 else None)
+                items, exc = [], None
+                for _step in range(4 * len(data) + 50):
+                    try:
+                        raw, parsed = rd.read()
+                    except Exception as err:  # noqa
+                        exc = err
+                        break
+                    if raw is None and parsed is None:
+                        break
+                    items.append((raw, parsed))
+                    if len(items) % 3 == 0:
+                        try:
+                            rd.datastream.write(b"\xb5\x62\x0a\x04\x00\x00\x0e\x34")
+                        except OSError:
+                            pass
         except S.HarnessHang as err:
             return [(f"{PROP}|hang", f"socket transport: {err}")], 0
         if exc is not None:
@@ -242,7 +261,7 @@ def run_shard(spec, ctx, acc):
             step = draw(st.sampled_from([1, 7, 100, 1000, 4096, 65536]))
             chunks = [draw(st.integers(1, step))] + [step] * min(len(data) // step + 2, 200)
             return {"kind": "socket", "data": data, "opts": draw(GOPTS), "chunks": chunks,
-                    "bufsize": draw(st.sampled_from([1, 16, 4096, 65536])), "end": draw(st.sampled_from(["close", "timeout"]))}
+                    "bufsize": draw(st.sampled_from([1, 16, 4096, 65536])), "end": draw(st.sampled_from(["close", "timeout", "reset", "aborted"]))}
 
         core.hyp_search(acc, sk(), check, seed=core.derive(ctx["seed"], PROP, "sock", spec["part"]),
                         max_examples=40 if ctx["tier"] == "quick" else 600, known=known, rounds=2, shrink=False)
